@@ -90,6 +90,7 @@ type FnCtx struct {
 	notes        map[string]bool
 	ghost        map[string]*Cell
 	lemmaName    string
+	usedLemmas   []string
 	lemmaStates  map[string]*State
 }
 
@@ -310,6 +311,9 @@ func (fx *FnCtx) merge(hint string, ins []edgeState) *State {
 			t, ok := e.st.heaps[k]
 			if !ok {
 				t = "|H0:" + sanitize(k) + "|"
+				if so := fx.heapSorts[k]; so != "" {
+					fx.decls.Raw(fmt.Sprintf("(declare-fun %s () %s)", t, so))
+				}
 			}
 			ts = append(ts, t)
 		}
